@@ -3,6 +3,7 @@ package rules
 import (
 	"fmt"
 	"go/ast"
+	"go/token"
 	"go/types"
 	"regexp"
 	"sort"
@@ -296,4 +297,105 @@ func ruleUncheckedAssertionsOnDecodedJSON(c *core.Ctx) {
 		})
 	}
 	c.Stats["unchecked_json_assertions"] = n
+	ruleDecodedInterfaceAsserted(c, rootPkgs)
+}
+
+// ruleDecodedInterfaceAsserted: JSON `null` decoded into a pointer to an interface variable sets
+// the variable to nil, whatever it held before; an unchecked type assertion on it afterwards
+// panics on input the client controls (a cursor that is the base64 of `null`).
+func ruleDecodedInterfaceAsserted(c *core.Ctx, rootPkgs map[string]bool) {
+	ix := index(c)
+	var work []*astx.DeclInfo
+	for _, d := range ix.Decls {
+		if rootPkgs[relPkg(d.Pkg.PkgPath)] && d.Decl.Body != nil && !strings.HasSuffix(c.Prog().Rel(d.Decl.Pos()), "_test.go") {
+			work = append(work, d)
+		}
+	}
+	sort.Slice(work, func(i, j int) bool { return astx.FuncKey(work[i].Obj) < astx.FuncKey(work[j].Obj) })
+	sites := 0
+	for _, d := range work {
+		info := d.Pkg.TypesInfo
+		fk := astx.FuncKey(d.Obj)
+		// interface-typed locals that are decode targets
+		decoded := map[types.Object]token.Pos{}
+		ast.Inspect(d.Decl.Body, func(x ast.Node) bool {
+			call, ok := x.(*ast.CallExpr)
+			if !ok {
+				return true
+			}
+			f := astx.Callee(info, call)
+			if f == nil || f.Pkg() == nil || f.Pkg().Path() != "encoding/json" {
+				return true
+			}
+			var target ast.Expr
+			switch {
+			case f.Name() == "Unmarshal" && len(call.Args) == 2:
+				target = call.Args[1]
+			case f.Name() == "Decode" && len(call.Args) == 1:
+				target = call.Args[0]
+			default:
+				return true
+			}
+			u, ok := ast.Unparen(target).(*ast.UnaryExpr)
+			if !ok || u.Op != token.AND {
+				return true
+			}
+			id, ok := ast.Unparen(u.X).(*ast.Ident)
+			if !ok {
+				return true
+			}
+			if t := info.TypeOf(id); t != nil && types.IsInterface(t) {
+				decoded[info.ObjectOf(id)] = call.End()
+				sites++
+			}
+			return true
+		})
+		if len(decoded) == 0 {
+			continue
+		}
+		occ := 0
+		ast.Inspect(d.Decl.Body, func(x ast.Node) bool {
+			// comma-ok assertions and type switches do not panic
+			switch y := x.(type) {
+			case *ast.TypeSwitchStmt:
+				return false
+			case *ast.AssignStmt:
+				if len(y.Lhs) == 2 && len(y.Rhs) == 1 {
+					if _, isTA := ast.Unparen(y.Rhs[0]).(*ast.TypeAssertExpr); isTA {
+						return false
+					}
+				}
+			}
+			ta, ok := x.(*ast.TypeAssertExpr)
+			if !ok || ta.Type == nil {
+				return true
+			}
+			id, ok := ast.Unparen(ta.X).(*ast.Ident)
+			if !ok {
+				return true
+			}
+			obj := info.ObjectOf(id)
+			after, isDecoded := decoded[obj]
+			if !isDecoded || ta.Pos() < after {
+				return true
+			}
+			// a dominating `v != nil` makes the assertion safe against null
+			for _, ft := range astx.FactsAt(info, d.Decl.Body, ta.Pos()) {
+				be, isBin := ast.Unparen(ft.Cond).(*ast.BinaryExpr)
+				if !isBin || !astx.IsNilExpr(info, be.Y) || !usesObj(info, be.X, obj) {
+					continue
+				}
+				if (be.Op == token.NEQ && ft.Positive) || (be.Op == token.EQL && !ft.Positive) {
+					return true
+				}
+			}
+			occ++
+			c.Fail("PANIC/decoders", fmt.Sprintf("%s:null-into-interface#%d", fk, occ), pos(c, ta), "unchecked type assertion "+types.ExprString(ta)+" on an interface variable that JSON was decoded into: the input `null` sets the variable to nil and the assertion panics — a malformed request is answered 500 instead of 4xx")
+			return true
+		})
+		if occ == 0 {
+			c.Pass("PANIC/decoders", fk+":null-into-interface", pos(c, d.Decl), "interface decode targets are nil-checked before being asserted")
+		}
+	}
+	c.Stats["interface_decode_targets"] = sites
 }
